@@ -51,6 +51,11 @@ func runC01(r *Run) {
 	r.Bound("max_doc_nodes", K)
 	es := g.all(N)
 	es = append(es, g.constructPairs()...)
+	// deeper nesting than the node bound reaches: every condition of the generated pool (nested filters
+	// followed by further uses of @, soft and hard failures, all ordered pairs under && and ||) as a filter
+	for _, cd := range condPool(8) {
+		es = append(es, eRoot(sFilter(cd.e)), eRoot(sAnyArray(), sFilter(cd.e)))
+	}
 	docs := c01Docs(K)
 	r.Bound("documents", len(docs))
 	groups := map[[2]bool][]*Expr{}
